@@ -488,3 +488,23 @@ CHECKS["C16"] = {
         {"name": "programs", "run": "^TestC16Batch$", "kind": "rapid", "checks": {"quick": 8, "thorough": 160}, "shards": {"quick": 8, "thorough": 16}, "shrinktime": "1s", "timeout": {"quick": 900, "thorough": 5400}},
     ],
 }
+
+# Round 5 (second independent hunt, DESIGN 8.7): what each rule gained.
+ROUND5 = {
+    "C01": "the values of the framing fields may carry horizontal tabs as optional whitespace (generator option TabOWS); chunk extensions on request chunks.",
+    "C03": "the body-limit unit draws the method from {POST, PUT, HEAD}: the 413 that answers a HEAD request carries no body.",
+    "C04": "Header.Del(\"Content-Length\") after SetBodyStream(r, n) is a program like any other (the exclusion is withdrawn); chunked-writer programs that call ctx.AbortWithMsg after their writes (known finding D92).",
+    "C06": "for the first 8 paths of every set: targets with a control byte (0x01, 0x1f, 0x7f) appended or as a further segment, as HTTP/1.1 and HTTP/1.0: a route handler may only run if its pattern matches the literal path.",
+    "C07": "unit file-by-param: download handlers that hand dir + ctx.Param(\"name\") to ctx.File and \"/h/\"+name to ctx.FileFromFS after the check an application makes; the file served is the file of exactly that name (files whose names contain %41, %20, '?', '#', %2e%2e%2f exist beside their decoded twins).",
+    "C08": "a last-byte-pos or suffix-length beyond int64 is clamped, a refusal is no longer accepted; route /gzi (Compress + IndexNames) with a directory whose index file's compressed copy cannot be created: an existing index file must be served; unit raw-param: WithUseRawPath and a rewriter built on the route parameter, targets ending in /.. in five spellings.",
+    "C09": "field mutators append(Request.Body(), ...) and append(Header.Peek(...), ...); unit sense-disconnect (race build): real standard transport with SenseClientDisconnection, 8 workers x 60 connections whose response write fails / whose peer leaves inside a streamed body / which are clean / whose handler starts a goroutine waiting on ctx.Finished().",
+    "C10": "unit tls-stall: HostClient over TLS (and plain, as control) against a peer that accepts and never speaks, request timeout / read+write timeouts / read timeout only.",
+    "C13": "writer op ReadFrom (reader of 0..102400 bytes delivering 7..all bytes per read) over an underlying connection with and without ReaderFrom; afterwards the peer holds at least everything written before the call and at most everything written.",
+    "C14": "consumption via wrapped-body (a reader that yields every byte twice in 256-byte steps is set as the body stream and read through Request.Body()); regress families: chunk-size lines the reader refuses or used to refuse, trailer sections with bare-LF line ends followed by two pipelined requests.",
+    "C15": "requests parsed into a recycled Request object; a header tag may name User-Agent; the streamed body read with Request.Body() before Bind; form and multipart media types in mixed case and with parameters; empty texts for string fields in form, query and json.",
+    "C16": "a twelfth of the programs is built around hostile handler names: List / ListMwStats with snake-style middleware names and an update run.",
+    "C17": "cookie paths that percent-decode to a ';' or an outer space are run (known finding D93) instead of being kept out; nameless cookies; every cookie string is also filed by a ResponseHeader and looked up under its key; URI programs have the op update (9 reference forms).",
+    "C18": "registry \"slow\" (Deregister returns after the exit wait time); unit concurrent-shutdown: 2..8 goroutines leave a spin barrier into Engine.Shutdown while a request is parked in its handler: at most one call returns nil, and none before the handler has returned.",
+}
+for _k, _v in ROUND5.items():
+    CHECKS[_k]["rule"] += " Round 5: " + _v
